@@ -239,6 +239,8 @@ class Model():
                 attacker.entry_points.remove(entry_point_tuple)
 
         self.assets.remove(asset)
+        self.asset_ids.remove(asset.id)
+        self.asset_names.remove(asset.name)
 
     def remove_asset_from_association(
             self,
